@@ -52,7 +52,7 @@ def recipes(ctx: Ctx):
     for ops in K.exhaustive_histories(depth):
         out.append((f"e{i}", {"ops": ops}))
         i += 1
-    n_random = 24000 if ctx.thorough else 1200
+    n_random = 18000 if ctx.thorough else 1200
     for _ in range(n_random):
         n = ctx.rng.randrange(2, 60 if ctx.thorough else 30)
         mode = ctx.rng.randrange(4)
